@@ -24,7 +24,7 @@ pub fn gen_san_position(cur: &mut Cursor) -> (RefPos, &'static str) {
     }
     if sel == 3 {
         // castling and "only reply is en passant" shapes matter for O-O texts and for +/# marks
-        let which = if cur.bool() { 4 } else { 12 };
+        let which = cur.pick(&[4usize, 12, 3, 11]);
         return gen_position_from(cur, which);
     }
     let mut p = RefPos::empty();
